@@ -81,6 +81,50 @@ Effects(m, o) ==
 ErrName(m) == m
 
 -----------------------------------------------------------------------------
+(***************************************************************************)
+(* Arguments.  Call has no argument parameter: the outcome of a call does  *)
+(* not depend on the argument values either (unset => the error, whatever  *)
+(* the arguments; set => delegated with exactly those arguments).  An      *)
+(* implementation that, for particular argument values, consults another   *)
+(* field (say GetBlobRange(0, -1) falling back to GetBlob_) violates       *)
+(* OwnFieldOnly only for those values, so the cases are also run over a    *)
+(* small product of special values per parameter.  A value is abstract     *)
+(* here ("empty", "nil", "zero", "dist" = a distinctive non-special value, *)
+(* or an integer literal); the harness concretises it by the Go type of    *)
+(* the parameter.  Params(m) lists the parameters after the context.       *)
+(***************************************************************************)
+StrVals    == {"empty", "dist"}          \* repository, tag, id, start point, media / artifact type, digest
+ChunkVals  == {"0", "-1", "dist"}        \* chunkSize
+OffsetVals == {"-1", "0", "dist"}        \* resume offset
+BlobVals   == {"nil", "empty", "dist"}   \* io.Reader / []byte content
+DescVals   == {"zero", "dist"}
+RangePairs == {<<"0", "-1">>, <<"0", "0">>, <<"-1", "-1">>, <<"5", "3">>, <<"dist", "dist">>}
+
+P1(A) == {<<a>> : a \in A}
+P2(A, B) == {<<a, b>> : a \in A, b \in B}
+P3(A, B, C) == {<<a, b, c>> : a \in A, b \in B, c \in C}
+P4(A, B, C, D) == {<<a, b, c, d>> : a \in A, b \in B, c \in C, d \in D}
+
+ArgProfiles(m) ==
+  CASE m \in {"GetBlob", "GetManifest", "ResolveBlob", "ResolveManifest", "DeleteBlob", "DeleteManifest"} -> P2(StrVals, StrVals)  \* repo, digest
+    [] m \in {"GetTag", "ResolveTag", "DeleteTag", "Tags"} -> P2(StrVals, StrVals)                 \* repo, tag / startAfter
+    [] m = "GetBlobRange" -> {<<r, d, p[1], p[2]>> : r \in StrVals, d \in StrVals, p \in RangePairs} \* repo, digest, offset0, offset1
+    [] m = "PushBlob" -> P3(StrVals, DescVals, BlobVals)                                          \* repo, desc, r
+    [] m = "PushBlobChunked" -> P2(StrVals, ChunkVals)                                            \* repo, chunkSize
+    [] m = "PushBlobChunkedResume" -> P4(StrVals, StrVals, OffsetVals, ChunkVals)                 \* repo, id, offset, chunkSize
+    [] m = "MountBlob" -> P3(StrVals, StrVals, StrVals)                                           \* fromRepo, toRepo, digest
+    [] m = "PushManifest" -> P4(StrVals, StrVals, BlobVals, StrVals)                              \* repo, tag, contents, mediaType
+    [] m = "Repositories" -> P1(StrVals)                                                          \* startAfter
+    [] m = "Referrers" -> P3(StrVals, StrVals, StrVals)                                           \* repo, digest, artifactType
+    [] OTHER -> {<<>>}
+
+\* The argument-independent outcome, spelled as a law over argument profiles (trivially true of
+\* Call; it is the real code that is judged against it, event by event).
+CallWithArgs(m, F, custom, nilRecv, av) == Call(m, F, custom, nilRecv)
+ArgsIrrelevantAt(m, F, custom, nilRecv) ==
+  \A av \in ArgProfiles(m) : CallWithArgs(m, F, custom, nilRecv, av) = Call(m, F \cap {m}, custom, nilRecv)
+
+-----------------------------------------------------------------------------
 (* Properties (quantified over a family FS of field sets by the MC modules) *)
 
 \* The outcome of calling m depends on no field other than m's own.
